@@ -475,6 +475,6 @@ MANIFEST = {
                   'n_evidence counts them, the simulator receives the acquired points in order, and with synchronous acquisition the '
                   'evidence is the same term sequence for every readiness schedule.',
     'level_note': 'dim <= 2; <= 3 start points; <= 6 evidence points; L-BFGS-B over-approximated by an arbitrary end point; '
-                  'MaxVar/ExpIntVar gradients are outside; RandMaxVar is known finding C11/randmaxvar-leaves-bounds; the GP is a '
+                  'MaxVar: product-rule structure of value and gradient in the prior is claimed, its model part and the ExpIntVar gradient are outside; RandMaxVar is known finding C11/randmaxvar-leaves-bounds; the GP is a '
                   'recording stand-in in the bookkeeping harnesses. z3 trusted.',
 }
